@@ -587,7 +587,8 @@ class Driver:
             if len(col.props) < 2:
                 return [col.path]
             self.w.full_audit([col.path])
-            prop = self.rng.choice(sorted(col.props))
+            # (mostly the one that was set first: it is followed by others wherever the settings are kept in order)
+            prop = list(col.props)[0] if self.rng.random() < 0.7 else self.rng.choice(sorted(col.props))
             self.w.proppatch(col.path, sets=[(prop, col.props[prop])], op="proppatch_same_value")
             self.count("proppatch_same_value")
             return [col.path]
